@@ -671,7 +671,11 @@ impl World {
                     H::OfOtherKey(k2) => Some(InstanceHandle::new(handle_of_key(*k2))),
                     H::Nil | H::Prev => Some(InstanceHandle::new([0; 16])),
                 };
-                let tstamp = ts.map(|off| time_from_abs(core::abs_now_ns() as i64 + off));
+                let tstamp = ts.map(|off| {
+                    let abs = core::abs_now_ns() as i64 + off;
+                    with_hist(|h| h.w_ts.insert(*uid, abs));
+                    time_from_abs(abs)
+                });
                 match &wi.h {
                     WriterH::Keyed(wr) => {
                         let d = KeyedData { key: *key, seq: *uid, x: *x, name: name.clone(), body: body(*uid, *len as usize) };
@@ -982,12 +986,31 @@ pub async fn run_script(w: Rc<World>, phase: usize, cid: usize, ops: Vec<Op>) {
             h.recs.push(Rec { phase, client: cid, idx: i, op: op.clone(), inv_step: s, inv_t: t, ret_step: u64::MAX, ret_t: u64::MAX, res: Res::Pending });
             h.recs.len() - 1
         });
-        let res = w.exec(cid, op).await;
+        let res = match (CatchUnwind { fut: Box::pin(w.exec(cid, op)) }).await {
+            Ok(r) => r,
+            Err(msg) => Res::Panic(msg),
+        };
         let (s, t) = with_core(|c| (c.step, c.now));
         with_hist(|h| {
             h.recs[ri].ret_step = s;
             h.recs[ri].ret_t = t;
             h.recs[ri].res = res;
         });
+    }
+}
+
+/// poll a future under catch_unwind so that a panicking API call (e.g. `todo!()`) becomes a result
+pub struct CatchUnwind<'a, T> {
+    fut: Pin<Box<dyn Future<Output = T> + 'a>>,
+}
+impl<T> Future for CatchUnwind<'_, T> {
+    type Output = Result<T, String>;
+    fn poll(mut self: Pin<&mut Self>, cx: &mut Context<'_>) -> Poll<Self::Output> {
+        let fut = &mut self.fut;
+        match std::panic::catch_unwind(std::panic::AssertUnwindSafe(|| fut.as_mut().poll(cx))) {
+            Ok(Poll::Ready(v)) => Poll::Ready(Ok(v)),
+            Ok(Poll::Pending) => Poll::Pending,
+            Err(_) => Poll::Ready(Err(core::LAST_PANIC.with(|p| p.borrow_mut().take()).unwrap_or_default())),
+        }
     }
 }
